@@ -719,7 +719,8 @@ struct TemplateCore {
                         ++offset;
                     }
 
-                    if (offset < end_offset) {
+                    // Level is 8 bits wide: a loop nested deeper than that is left as text.
+                    if ((offset < end_offset) && (parent_storage.Size() <= SizeT{255})) {
                         LoopTag *tag = (storage->Insert(TagBit{})).MakeLoopTag();
                         tag->Offset  = loop_offset;
                         tag->Parent  = loop_tag;
